@@ -311,9 +311,8 @@ def gssvx_cases(tier, prec="d", purpose="C05"):
             cs.append(xcase(2, 15, hist=13, umode=2)); cs.append(xcase(3, 511, hist=13, symcols=6, tune="t212"))
             # fill-changing refactorization: arrow pattern with the tip first, first column symbolic, fill estimate 1 -- the remembered row order can be abandoned for one that
             # fills the matrix, so the storage adopted from the previous factors has to grow during the SamePattern_SameRowPerm step
-            for n_ in (4, 5):
-                for tn in ("t1nn_f1", "t221_f1"):
-                    for h, tr in ((13, 12), (134, 121)): cs.append(xcase(n_, C.arrow(n_, False), hist=h, trans=tr, symcols=1, tune=tn, nrhs=1))
+            for n_, tn, h, tr in ((4, "t1nn_f1", 13, 12), (4, "t221_f1", 134, 121)) if q else ((4, "t1nn_f1", 13, 12), (4, "t221_f1", 134, 121), (5, "t1nn_f1", 134, 121), (5, "t221_f1", 13, 12), (4, "t1nn_f1", 1334, 1211)):
+                cs.append(xcase(n_, C.arrow(n_, False), hist=h, trans=tr, symcols=1, tune=tn, nrhs=1))
             for pat in (15, 0b1101, 0b1011, 0b0111): cs.append(xcase(2, pat, hist=13, umode=3)); cs.append(xcase(2, pat, hist=12, umode=3, storage=1))     # u = 0.0: a remembered / diagonal pivot that is exactly zero must be abandoned
             cs.append(xcase(3, C.band(3, 1, 1), hist=13, umode=3, symcols=6, tune="t212")); cs.append(xcase(3, 511, hist=134, trans=121, umode=3, symcols=4, tune="t122"))
             for n_, pat in ((5, C.dense(5, 5)), (6, C.band(6, 2, 2))):
@@ -331,7 +330,7 @@ GSSVX_BOUNDS = "n <= 3 symbolic (fully or one/two symbolic columns with generic 
 def check_gssvx(chk, prefixes, tier, purpose):
     for prec in precs(tier):
         cs = gssvx_cases(tier, prec, purpose)
-        run_phase(chk, "gssvx/" + prec, H + "h_gssvx.c", cs, prefixes, prec=prec, budget_s=220 if tier == "quick" else 3000, bounds=GSSVX_BOUNDS,
+        run_phase(chk, "gssvx/" + prec, H + "h_gssvx.c", cs, prefixes, prec=prec, budget_s=240 if tier == "quick" else 3000, bounds=GSSVX_BOUNDS,
                   qtimeout_ms=(3000 if prec in "zc" else 8000) if tier == "quick" else 60000, env=CPLX_ENV if prec in "zc" else None,
                   key_extra=lambda c: {"storage": str(c[2]), "trans": str(c[16]), "hist": str(c[15])})
 
@@ -539,7 +538,7 @@ def check_C19(chk, tier):
     run_phase(chk, "gssv(asan)/d", H + "h_gssv.c", gc, ["C19."], prec="d", budget_s=200 if q else 900, bounds="simple driver lifecycle, NC/NR, singular and successful outcomes", **kw)
     xc = [xcase(2, 15, hist=h, trans=t, storage=st, symcols=sc, tune="t1nn_f1") for h, t, st, sc in ((1, 1, 0, -1), (1, 2, 1, -1), (14, 12, 0, 2), (13, 21, 1, 2), (124, 123, 0, 2), (134, 213, 1, 2))] + \
          [xcase(2, 15, lworkmode=-1, storage=st, equil=e) for st in (0, 1) for e in (0, 1)] + [xcase(3, 511, symcols=0, equil=1, refine=1, cond=1, growth=1, nrhs=1, trans=t, storage=st) for t in (1, 2) for st in (0, 1)] + \
-         [xcase(5, C.dense(5, 5), symcols=16, hist=134, trans=121, tune="t1nn_f1")] + [xcase(n_, C.arrow(n_, False), hist=134, trans=121, symcols=1, tune=tn) for n_ in (4, 5) for tn in ("t1nn_f1", "t221_f1")]
+         [xcase(5, C.dense(5, 5), symcols=16, hist=134, trans=121, tune="t1nn_f1")] + [xcase(4, C.arrow(4, False), hist=134, trans=121, symcols=1, tune="t1nn_f1")]
     run_phase(chk, "gssvx(asan)/d", H + "h_gssvx.c", xc, ["C19."], prec="d", budget_s=200 if q else 900, bounds="expert driver histories incl. singular results and size queries", key_extra=lambda c: {"storage": str(c[2]), "trans": str(c[16]), "hist": str(c[15])}, **kw)
     kc = [c for c in kernel_cases("quick", "d") if c[0] in (3, 4)][:40] + [c for c in kernel_cases("quick", "d") if c[0] in (1, 2)][:40]
     run_phase(chk, "kernels(asan)/d", H + "h_kernels.c", kc, ["C19.", "C14.factors"], prec="d", budget_s=150, bounds="kernels on real factor pairs", **kw)
@@ -712,8 +711,8 @@ def check_C16(chk, tier):
 
 
 # ------------------------------------------------------------------------------------------------ C15 incomplete LU
-def icase(n, pat, colperm=0, permidx=0, tune="t122", symcols=0, milu=0, droprule=9, rowperm=0, trans=0, dropmode=0, nrhs=1):
-    return (n, hex(pat), colperm, permidx) + tuple(T[tune]) + (symcols, milu, droprule, rowperm, trans, dropmode, nrhs)
+def icase(n, pat, colperm=0, permidx=0, tune="t122", symcols=0, milu=0, droprule=9, rowperm=0, trans=0, dropmode=0, nrhs=1, tiny=0):
+    return (n, hex(pat), colperm, permidx) + tuple(T[tune]) + (symcols, milu, droprule, rowperm, trans, dropmode, nrhs) + ((tiny,) if tiny else ())
 
 
 def check_C15(chk, tier):
@@ -731,6 +730,24 @@ def check_C15(chk, tier):
             cs.append(icase(n, pat, symcols=0, rowperm=1, dropmode=0)); cs.append(icase(n, pat, symcols=0, rowperm=1, dropmode=1, trans=1, colperm=2))
             if n <= 3 and not (q and pat == 511): cs.append(icase(n, pat, symcols=1 << (n - 1), dropmode=1)); cs.append(icase(n, pat, symcols=1 << (n - 1), dropmode=2, droprule=0x0B, milu=2)); cs.append(icase(n, pat, symcols=1, dropmode=0, colperm=4, permidx=1))
         for pat in ((0b0110,) if q else (0b0110, 15, 0b1101)): cs.append(icase(2, pat, symcols=-1, dropmode=1)); cs.append(icase(2, pat, symcols=-1, dropmode=2))
+        # panel (non-relaxed) path of the incomplete factorization, incl. columns whose L part is empty when they are reached (pivot row invented from the unpivoted rows):
+        # relax = 1 tunings, 'hole' patterns, NATURAL and non-involutory caller orderings
+        for pat in (0b0111, 0b0110, 15):
+            for tn in ("t111", "t212"): cs.append(icase(2, pat, symcols=-1, dropmode=1, tune=tn)); cs.append(icase(2, pat, symcols=0, dropmode=0, tune=tn, trans=1))
+        for n in (3, 4, 5, 6) if q else (3, 4, 5, 6, 8, 10):
+            for p_ in range(0, n - 2):
+                pat = C.hole2(n, p_)
+                if C.structural_rank(n, n, pat) < n: continue
+                for tn, dm in (("t111", 0), ("t212", 0), ("t313", 2), ("tn1n", 0), ("t122", 0)):
+                    if q and n >= 5 and tn in ("t313", "t122"): continue
+                    # (r,p) tiny: dropped with supernode {p}, so column r = p+2 has no pivot candidate left although row r is unpivoted (pivot row invented, info counts it)
+                    cs.append(icase(n, pat, symcols=0, dropmode=dm, tune=tn, milu=(n + p_) % 4, nrhs=1 + (p_ % 2), trans=p_ % 2, tiny=1 << p_))
+                    cs.append(icase(n, pat, symcols=0, dropmode=dm, tune=tn, colperm=4, permidx={3: 3, 4: 9, 5: 33, 6: 153}.get(n, 1), milu=p_ % 4, tiny=1 << p_))
+                if n <= 4: cs.append(icase(n, pat, symcols=1 << p_, dropmode=0, tune="t111")); cs.append(icase(n, pat, symcols=1 << (p_ + 2), dropmode=0, tune="t212", tiny=1 << p_))
+            for j in range(1, n):
+                if n <= 4 and C.structural_rank(n, n, C.hole(n, j)) == n: cs.append(icase(n, C.hole(n, j), symcols=0, dropmode=0, tune="t111", tiny=1 << (j - 1), colperm=4, permidx=3 if n == 3 else 9))
+        for n, pat in ((3, 511), (3, C.band(3, 1, 1)), (4, C.band(4, 1, 1)), (5, C.dense(5, 5)), (6, C.band(6, 2, 2))):
+            for tn in ("t111", "t212"): cs.append(icase(n, pat, symcols=0, dropmode=1, tune=tn, milu=n % 4)); cs.append(icase(n, pat, symcols=0, dropmode=2, tune=tn, trans=1, colperm=4, permidx=3))
         run_phase(chk, "gsisx/" + prec, H + "h_ilu.c", list(dict.fromkeys(cs)), ["C15."], prec=prec, budget_s=200 if q else 1500, validate_samples=0, path_timeout=40 if q else 600, key_extra=lambda c: {"has_symbolic_column": str(int(c[10] != 0))}, qtimeout_ms=5000 if q else 60000, env=CPLX_ENV if prec in "zc" else None,
                   bounds="structurally nonsingular patterns n<=6 (10 thorough) incl. zero diagonal; drop settings {default, disabled, aggressive}; MILU variants; NOROWPERM / LargeDiag_MC64; NOTRANS/TRANS; symbolic B, concrete or partly/fully symbolic A")
 
